@@ -22,6 +22,7 @@ from vlib.build import BuildError
 from tools.gen import marsh as gen_marsh
 from tools.gen import asm as gen_asm
 from tools.gen import bytecode as gen_bytecode
+from tools.gen import peg as gen_peg
 from tools.gen.csrc import ExtractError
 
 THEOREMS = ["JanetModel.Props.C09." + t for t in (
@@ -30,6 +31,7 @@ THEOREMS = ["JanetModel.Props.C09." + t for t in (
     "roundtrip_graph", "ids_agree", "roundtrip_graph_top", "roundtrip_tree",            # data graphs: sharing and cycles
     "read_total_inbounds", "unmarshal_nil",                                              # decoder stays inside the buffer
     "asm_operand_roundtrip", "asm_operand_rejects",                                      # assembler operand fields (asm . disasm)
+    "env_slot_test_is_bit", "env_walk_visits_set_bits",                                  # closure env written from a live frame
 )]
 
 ENV = dict(os.environ, ASAN_OPTIONS="detect_leaks=0:abort_on_error=0", UBSAN_OPTIONS="print_stacktrace=1")
@@ -729,6 +731,76 @@ def run(ctx):
         stats["asm_operands"] = astats
         ctx.say("asm operands: %r" % {k: v for k, v in astats.items() if k != "skipped_opcodes"})
 
+    # (E4) compiled PEGs: every combinator of peg_specials[], every opcode of the generated opcode table; fields that
+    # peg_unmarshal recomputes (bytecode_len, num_constants, has_backref) read directly from original and copy
+    pstats = {}
+    if janet:
+        import importlib.util
+        spec = importlib.util.spec_from_file_location("c09_peggen", os.path.join(H, "peggen.py"))
+        peggen = importlib.util.module_from_spec(spec)
+        spec.loader.exec_module(peggen)
+        try:
+            pinfo = gen_peg.extract(ctx.build.tree)
+            with open(os.path.join(ctx.build.tree, "src/core/peg.c"), encoding="utf-8", errors="replace") as f:
+                pcases = peggen.cases(f.read(), ctx.rng.fork("peg"), 400 if quick else 8000)
+            hxp = ctx.build.harness("plain", "c09pegfields", [os.path.join(H, "pegfields.c")])
+        except (ExtractError, BuildError, ValueError) as e:
+            pcases, hxp, pinfo = [], None, None
+            broken.append("peg combinator / opcode table or harness: %s" % str(e)[-400:])
+            ctx.broken.append(broken[-1])
+        if hxp:
+            chunks = [pcases[i::nproc] for i in range(nproc)]
+            def runp(ch):
+                rc, out, err = run_cmd([hxp], input=("\n".join(c[2] for c in ch) + "\n").encode(), timeout=900, env=ENV)
+                return rc, out.decode(errors="replace").splitlines(), err.decode(errors="replace")[-2000:]
+            with cf.ThreadPoolExecutor(nproc) as ex:
+                pres = list(ex.map(runp, chunks))
+            pstats = {"grammars": len(pcases), "ok": 0, "nocompile": 0, "failures": 0, "texts_matched": 0, "texts_failed": 0, "texts_raised": 0,
+                      "with_backref_flag": 0}
+            seen_ops = set()
+            num2op = dict((v, k) for k, v in pinfo["ops"].items())
+            for ch, (rc, out, err) in zip(chunks, pres):
+                if rc != 0 or len(out) != len(ch):
+                    bad = ch[len(out)][1] if len(out) < len(ch) else "?"
+                    violations.append(("peg-harness-crash", {"kind": "peg", "grammar": bad, "rc": rc, "stderr": err}, "peg round trip harness crashed on %s" % bad[:200]))
+                for (name, g, line), o in zip(ch, out):
+                    if o.startswith("ok "):
+                        pstats["ok"] += 1
+                        m = dict(x.split("=", 1) for x in o.split()[1:])
+                        pstats["texts_matched"] += int(m["succ"]); pstats["texts_failed"] += int(m["fail"]); pstats["texts_raised"] += int(m["err"])
+                        pstats["with_backref_flag"] += int(m["hb"])
+                        words = [int(m["words"][k:k + 8], 16) for k in range(0, len(m["words"]), 8)]
+                        k = 0
+                        while k < len(words):          # walk the bytecode with the generated instruction sizes
+                            opn = num2op.get(words[k] & 0x7F)
+                            if opn is None:
+                                break
+                            seen_ops.add(opn)
+                            sz = pinfo["sizes"].get(opn, 0)
+                            if sz == 0:
+                                n1 = words[k + 1] if k + 1 < len(words) else 0
+                                sz = 2 + ((n1 + 3) >> 2) if opn == "RULE_LITERAL" else 2 + n1
+                            k += sz
+                    elif o.startswith("nocompile"):
+                        pstats["nocompile"] += 1
+                        if name != "random":
+                            ctx.notes.append("peg template for %s does not compile: %s -> %s" % (name, g, o[:100]))
+                    else:
+                        pstats["failures"] += 1
+                        kindw = o.split()[0]
+                        sig = {"roundtrip": "peg-unmarshal-fails", "field": "peg-recomputed-field:" + (o.split()[1] if len(o.split()) > 1 else "?"), "beh": "peg-behaviour"}.get(kindw, "peg")
+                        violations.append((sig, {"kind": "peg", "grammar": g, "line": line, "result": o[:600],
+                                                 "janet": "(def p (peg/compile '%s)) (def q (unmarshal (marshal p make-image-dict) load-image-dict))" % g},
+                                           "compiled PEG %s does not survive marshal/unmarshal: %s" % (g[:160], o[:300])))
+            missing_ops = sorted(set(pinfo["ops"]) - seen_ops)
+            pstats["opcodes_seen"] = len(seen_ops)
+            pstats["opcodes_missing"] = missing_ops
+            if missing_ops:
+                broken.append("peg opcodes of the generated table never marshalled by the generator: %s" % missing_ops)
+                ctx.broken.append(broken[-1])
+        stats["peg"] = pstats
+        ctx.say("pegs: %r" % pstats)
+
     # (E1) direct oracle on the codec (independent of the model)
     swept = 0
     if hx:
@@ -832,6 +904,14 @@ def replay(ctx, path):
         still = rc != 0 or (parts[0] != "ok") != (r.get("signature", "").startswith("asm-accepts")) or (parts[0] == "ok" and len(parts) == 3 and parts[1] != parts[2])
         if still:
             ctx.violation(r.get("signature", "asm"), r, what="still fails: " + o[:300])
+        return ctx.finish("proof", {"evaluations": 1, "distinct_nontrivial": 1, "rule": "replay", "samples": [o[:200]]})
+    if kind == "peg" and r.get("line"):
+        hxp = ctx.build.harness("plain", "c09pegfields", [os.path.join(H, "pegfields.c")])
+        rc, out, err = run_cmd([hxp], input=(r["line"] + "\n").encode(), timeout=600, env=ENV)
+        o = out.decode(errors="replace").strip()
+        print("replayed:", o[:600])
+        if rc != 0 or not o.startswith("ok "):
+            ctx.violation(r.get("signature", "peg"), r, what="still fails: " + o[:300])
         return ctx.finish("proof", {"evaluations": 1, "distinct_nontrivial": 1, "rule": "replay", "samples": [o[:200]]})
     if kind == "code":
         rc, out, err = run_cmd([janet, os.path.join(H, "code.janet"), str(r["code_seed"]), str(r["rounds"])], timeout=3000, env=ENV)
